@@ -133,9 +133,16 @@ def _emit_ast_string(
 
 
 def _flatmap_forms(forms: Iterable[ReaderForm]) -> Iterable[ReaderForm]:
-    """Flatmap over an iterable of forms, unrolling any top-level `do` forms"""
+    """Flatmap over an iterable of forms, unrolling any top-level `do` forms.
+
+    An empty `do` is not unrolled (into nothing): its value is `nil`, which is the
+    value of the enclosing `do` as well if it comes last."""
     for form in forms:
-        if isinstance(form, ISeq) and form.first == SpecialForm.DO:
+        if (
+            isinstance(form, ISeq)
+            and form.first == SpecialForm.DO
+            and not form.rest.is_empty
+        ):
             yield from _flatmap_forms(form.rest)
         else:
             yield form
